@@ -1,8 +1,13 @@
 package checks
 
 import (
+	"bytes"
 	"fmt"
+	"github.com/crate-crypto/go-ipa/common"
+	"github.com/crate-crypto/go-ipa/zzverif/vsched"
+	"io"
 	"math/big"
+	"testing/iotest"
 
 	"github.com/crate-crypto/go-ipa/bandersnatch"
 	"github.com/crate-crypto/go-ipa/bandersnatch/fr"
@@ -379,6 +384,71 @@ func c07Batches(ctx *core.Ctx, r *core.Result) {
 					vio(r, "c07.batch", "banderwagon.BatchToBytesUncompressed", in, fmt.Sprintf("[%d] = BytesUncompressedTrusted() = %x", i, u), fmt.Sprintf("%x", ub[i]))
 					break
 				}
+			}
+		}
+	}
+	// BatchNormalize of batches whose size is not a multiple of the worker count, against the reference
+	if vsched.Instrumented {
+		defer vsched.SetNumCPU(0)
+	}
+	for _, cfg := range [][2]int{{73, 16}, {300, 16}, {300, 7}, {17, 3}, {1000, 0}} {
+		L, cpu := cfg[0], cfg[1]
+		if vsched.Instrumented {
+			vsched.SetNumCPU(cpu)
+		}
+		store := make([]banderwagon.Element, L)
+		ptrs := make([]*banderwagon.Element, L)
+		for i := range store {
+			store[i] = reprOf(c.SRS[(i*7+L)%256], 1+i%3)
+			ptrs[i] = &store[i]
+		}
+		in := fmt.Sprintf("BatchNormalize of %d elements, NumCPU=%d", L, cpu)
+		var err error
+		if !timed(r, "c07.panic", "banderwagon.BatchNormalize", in, func() { err = banderwagon.BatchNormalize(ptrs) }) {
+			break
+		}
+		r.Evals++
+		r.Nontrivial++
+		if err != nil {
+			vio(r, "c07.batch", "banderwagon.BatchNormalize", in, "success", err.Error())
+			continue
+		}
+		for i := range store {
+			want := ref.Compress(ref.SRS()[(i*7+L)%256])
+			var d banderwagon.Element
+			derr := d.SetBytes(want[:])
+			if store[i].Bytes() != want || derr != nil || !d.Equal(&store[i]) || !store[i].IsOnCurve() {
+				vio(r, "c07.batch", "banderwagon.BatchNormalize", in, fmt.Sprintf("element %d is still the same group element (on the curve, bytes %x)", i, want), elString(&store[i]))
+				break
+			}
+		}
+	}
+	if vsched.Instrumented {
+		vsched.SetNumCPU(0)
+	}
+	// ReadPoint from readers that deliver the 32 bytes in pieces or together with io.EOF
+	for i := 0; i < 6; i++ {
+		want := ref.Compress(ref.SRS()[i])
+		for _, mode := range []string{"one byte per call", "half of the request per call", "data together with io.EOF"} {
+			var rd io.Reader = bytes.NewReader(want[:])
+			switch mode {
+			case "one byte per call":
+				rd = iotest.OneByteReader(rd)
+			case "half of the request per call":
+				rd = iotest.HalfReader(rd)
+			default:
+				rd = iotest.DataErrReader(rd)
+			}
+			in := fmt.Sprintf("ReadPoint of the encoding of SRS[%d], reader: %s", i, mode)
+			var e *banderwagon.Element
+			var err error
+			if !guard(r, "c07.panic", "common.ReadPoint", in, func() { e, err = common.ReadPoint(rd) }) {
+				continue
+			}
+			r.Evals++
+			r.Nontrivial++
+			if err != nil || e == nil || e.Bytes() != want {
+				vio(r, "c07.decode", "common.ReadPoint", in, fmt.Sprintf("the element with bytes %x", want), fmt.Sprintf("err=%v", err))
 			}
 		}
 	}
